@@ -346,14 +346,12 @@ func (p *H265AggregationPacket) Unmarshal(payload []byte) ([]byte, error) { //no
 
 	// Parse remaining Aggregation Units
 	var units []H265AggregationUnit
-	for {
+	// Every remaining byte belongs to a further aggregation unit: a unit that is cut short
+	// means that the packet is, and is not dropped silently.
+	for len(payload) > 0 {
 		unit := H265AggregationUnit{}
 
 		if p.mightNeedDONL {
-			if len(payload) < 1 {
-				break
-			}
-
 			dond := payload[0]
 			unit.dond = &dond
 
@@ -361,13 +359,13 @@ func (p *H265AggregationPacket) Unmarshal(payload []byte) ([]byte, error) { //no
 		}
 
 		if len(payload) < 2 {
-			break
+			return nil, errShortPacket
 		}
 		unit.nalUnitSize = (uint16(payload[0]) << 8) | uint16(payload[1])
 		payload = payload[2:]
 
 		if len(payload) < int(unit.nalUnitSize) {
-			break
+			return nil, errShortPacket
 		}
 
 		unit.nalUnit = payload[:unit.nalUnitSize]
